@@ -208,7 +208,7 @@ class TermBuilder:
         if len(uniq) == 1:
             t = uniq[0]
         elif len(uniq) == 2 and len(full) == 2:
-            t = self.try_ite(full, terms, blk) or ("phi", tuple(sorted(terms, key=repr)))
+            t = self.try_ite(full, terms, blk) or self.try_ite_paths(full, terms, blk) or ("phi", tuple(sorted(terms, key=repr)))
         else:
             t = ("phi", tuple(sorted(terms, key=repr)))
         self._memo[key] = t
@@ -285,6 +285,15 @@ class TermBuilder:
         if r == "use":
             return op(rv["a"])
         if r == "binop":
+            aty = rv.get("aty") or {}
+            if aty.get("k") == "int" and aty.get("signed") is False:
+                # comparisons of an unsigned value with zero that are decided by the type (range patterns `0..=n`)
+                za = rv["a"].get("o") == "const" and rv["a"].get("v") == 0
+                zb = rv["b"].get("o") == "const" and rv["b"].get("v") == 0
+                if (rv["op"] == "Le" and za) or (rv["op"] == "Ge" and zb):
+                    return ("const", 1)
+                if (rv["op"] == "Gt" and za) or (rv["op"] == "Lt" and zb):
+                    return ("const", 0)
             return self.mk_op(rv["op"], op(rv["a"]), op(rv["b"])) if not rv["op"].endswith("WithOverflow") else \
                 ("op", rv["op"], op(rv["a"]), op(rv["b"]))
         if r == "unop":
@@ -400,6 +409,58 @@ class TermBuilder:
             return ("ite", c, terms[0], terms[1])
         if in_f1 and not in_t1 and in_t2 and not in_f2:
             return ("ite", c, terms[1], terms[0])
+        return None
+
+    def try_ite_paths(self, defs, terms, useblk):
+        """two definitions selected by a conjunction of tests (short-circuit `&&`, range patterns, match guards): the value is
+        ite(c1 & .. & ck, t1, t2) when definition 1 is reached exactly under the conjunction and definition 2 under its negation
+        (relative to what both paths share).  Verified by a truth table over the atoms involved."""
+        if getattr(self, "_in_paths", False) or len(defs) != 2 or ("ENTRY",) in defs:
+            return None
+        (b1, _, _), (b2, _, _) = defs
+        if b1 == b2:
+            return None
+        if useblk is not None:
+            for bd in (b1, b2):
+                if bd != useblk and useblk not in self.fwd_reach(bd):
+                    return None
+            if self.cfg.dominates(b1, b2) or self.cfg.dominates(b2, b1):
+                return None
+        self._in_paths = True
+        try:
+            d1 = path_dnf(self, b1, max_paths=16)
+            d2 = path_dnf(self, b2, max_paths=16)
+        finally:
+            self._in_paths = False
+        if not d1 or not d2:
+            return None
+        common = frozenset.intersection(*(list(d1) + list(d2)))
+        r1 = simplify_dnf([cj - common for cj in d1])
+        r2 = simplify_dnf([cj - common for cj in d2])
+        order = [(r1, r2, terms[0], terms[1]), (r2, r1, terms[1], terms[0])]
+        for ra, rb, ta, tb_ in order:
+            if len(ra) != 1 or not ra[0]:
+                continue
+            conj = sorted(ra[0], key=repr)
+            atoms = sorted({c for c, v in conj} | {c for cj in rb for c, v in cj}, key=repr)
+            if len(atoms) > 6 or any(c[0] in ("switch-other", "flagval") for c in atoms):
+                continue
+            import itertools
+            ok = True
+            for vals in itertools.product([False, True], repeat=len(atoms)):
+                env = dict(zip(atoms, vals))
+                va = all(env[c] == v for c, v in conj)
+                vb = any(all(env[c] == v for c, v in cj) for cj in rb)
+                if va == vb:
+                    ok = False
+                    break
+            if not ok:
+                continue
+            cond = None
+            for c, v in conj:
+                x = c if v else ("un", "Not", c)
+                cond = x if cond is None else ("op", "BitAnd", cond, x)
+            return ("ite", cond, ta, tb_)
         return None
 
     def fwd_reach(self, a):
@@ -862,6 +923,8 @@ def normalise(t):
     """canonical forms: ceil-division idioms, commutative sorting, comparison direction, and the unsigned-integer
     identities  x & (2^k - 1) = x % 2^k,  x.is_multiple_of(d) = (x % d == 0),  x - (x / d) * d = x % d"""
     def f(x):
+        if x[0] == "ite" and x[1][0] == "un" and x[1][1] == "Not":
+            return f(("ite", x[1][2], x[3], x[2]))
         if x[0] == "ite":
             c, a, b = x[1], x[2], x[3]
             # if n % d == 0 { n/d } else { n/d + 1 }
@@ -901,9 +964,14 @@ def normalise(t):
             if op in COMMUTATIVE and repr(b) < repr(a):
                 return ("op", op, b, a)
             if op == "Gt":
-                return ("op", "Lt", b, a)
+                return f(("op", "Lt", b, a))
             if op == "Ge":
-                return ("op", "Le", b, a)
+                return f(("op", "Le", b, a))
+            # integer comparisons against a constant in one spelling:  x < c  ==  x <= c-1,   c < x  ==  c+1 <= x
+            if op == "Lt" and b[0] == "const" and isinstance(b[1], int) and not isinstance(b[1], bool) and b[1] >= 1:
+                return ("op", "Le", a, ("const", b[1] - 1))
+            if op == "Lt" and a[0] == "const" and isinstance(a[1], int) and not isinstance(a[1], bool) and a[1] >= 0:
+                return ("op", "Le", ("const", a[1] + 1), b)
         return x
     return map_term(t, f)
 
